@@ -156,7 +156,7 @@ RunIsBlocks == RunDone => out = RunSem(cfg, Iota(N))
 RunPrefix == drv = "run" => IsPrefix(out, RunSem(cfg, Iota(N)))
 EmptyFlowNothing == (RunDone /\ N = 0) => out = <<>>
 RemainderOnlyIfYor == (RunDone /\ ~cfg.yor) => out = RunSem(cfg, Complete(cfg, Iota(N)))
-ResultCount == (RunDone /\ cfg.take = 0) =>
+ResultCount == (RunDone /\ cfg.take = 0 /\ cfg.m # 9) =>
    Len(out) = (IF cfg.pv THEN (IF cfg.yor THEN N ELSE Len(Complete(cfg, Iota(N)))) ELSE 0)
               + cfg.m * ((N \div cfg.n) + (IF cfg.yor /\ N % cfg.n # 0 THEN 1 ELSE 0))
 
@@ -181,7 +181,7 @@ AfterRequest == (Free /\ LastIsRequest) => s.bin = <<>> /\ s.bout = <<>> /\ s.c 
 OneBlock == Free => /\ s.c <= cfg.n
                     /\ (cfg.bufIn => s.bout = <<>>) /\ (~cfg.bufIn => s.bin = <<>>)
                     /\ s.c + Len(s.bin) <= (cfg.n - 1) + since
-                    /\ Len(s.bout) <= cfg.m * (since \div cfg.n + 1)
+                    /\ Len(s.bout) <= MaxRes(cfg) * (since \div cfg.n + 1)
 \* a request right after a request yields nothing
 SecondRequestEmpty == (Free /\ Len(h) >= 2 /\ h[Len(h)].op = "r" /\ h[Len(h) - 1].op = "r")
                          => h[Len(h)].res = <<>>
@@ -189,6 +189,17 @@ SecondRequestEmpty == (Free /\ Len(h) >= 2 /\ h[Len(h)].op = "r" /\ h[Len(h) - 1
 \* Split around the adapter, with any bufsize (dividing the block size or not), and FillRequestSeq
 SplitEqRun == (RunDone /\ cfg.kind \in {"fc", "fr", "frc"} /\ ~cfg.yor) =>
    \A j \in 1..Len(SplitBufs) : SplitAround(cfg, Iota(N), SplitBufs[j]) = RunSem(cfg, Iota(N))
+\* Split yields the adapter's results buffer by buffer: after every buffer nothing stays behind in the adapter
+RECURSIVE Flat(_)
+Flat(ss) == IF ss = <<>> THEN <<>> ELSE Head(ss) \o Flat(Tail(ss))
+SplitPerBuffer == (RunDone /\ cfg.kind \in {"fc", "fr", "frc"} /\ ~cfg.yor /\ src = "iter" /\ odd = -1) =>
+   \A j \in 1..Len(SplitBufs) :
+      LET per == SplitPerBlock(cfg, Iota(N), SplitBufs[j]) IN
+      /\ Flat(per) = SplitAround(cfg, Iota(N), SplitBufs[j])
+      /\ \A b \in 1..Len(per) :
+            \* the results of the first b buffers are those of run on the values of these buffers
+            LET seen == IF SplitBufs[j] = None THEN N ELSE Min(N, b * SplitBufs[j])
+            IN Flat(SubSeq(per, 1, b)) = RunSem(cfg, Complete(cfg, Iota(seen)))
 SeqEqRun == (RunDone /\ cfg.kind \in {"fc", "fr", "frc"} /\ ~cfg.yor) =>
    \A n2 \in 1..MaxBlock :
       /\ FRSeqRun(cfg, Iota(N), n2, FALSE) = RunSem(cfg, Complete(cfg, Iota(n2 * (N \div n2))))
@@ -209,7 +220,8 @@ Emitted ==
   /\ RunDone => PrintT(ToJson([t |-> "run", cfg |-> cfg, N |-> N, src |-> src, odd |-> odd, out |-> out,
         split |-> IF src = "iter" /\ odd = -1 /\ cfg.kind \in {"fc", "fr", "frc"}
                   THEN [j \in 1..Len(SplitBufs) |->
-                          [bs |-> SplitBufs[j], out |-> SplitAround(cfg, Iota(N), SplitBufs[j])]]
+                          [bs |-> SplitBufs[j], out |-> SplitAround(cfg, Iota(N), SplitBufs[j]),
+                           per |-> SplitPerBlock(cfg, Iota(N), SplitBufs[j])]]
                   ELSE <<>>,
         seq |-> IF src = "iter" /\ odd = -1 /\ cfg.kind \in {"fc", "fr", "frc"} THEN SeqCases ELSE <<>>]))
 =============================================================================
